@@ -48,3 +48,147 @@ def c08_k(run):
     kani_obligation(run, 'astria-merkle', OVERLAYS, hs, 'crates/astria-merkle/src/lib.rs', 'verif_kani_lib', '/verif/kani/merkle/lib_harness.rs',
                     timeout_s=600 if run.tier == 'quick' else 3000)
     run.assume('Kani models the dev profile (overflow checks on); release-profile wrapping is covered by the native replay in both profiles only for counterexamples')
+
+
+# ===================================================================================================================
+# E2: the proof walk and the tree structure, hashes as free constructors (collision-free hash model)
+_H = z3.Datatype('Hash')
+_H.declare('atom', ('aid', z3.IntSort()))
+_H.declare('leaf', ('lbytes', z3.IntSort()))
+_H.declare('node', ('nl', _H), ('nr', _H))
+Hash = _H.create()
+SCALARS = {'std::num::NonZero': 64, 'NonZero': 64, 'NonZeroUsize': 64}
+INVALID_PROOF_CTORS = (r'^InvalidProof::(zero_tree_size|leaf_index_outside_tree|audit_path_not_multiple_of_32)$',)
+
+
+def merkle_engine(hooks):
+    import re
+    return loader.load(['astria-merkle'], scalar_types=SCALARS, hooks=[(re.compile(rx), h) for rx, h in hooks])
+
+
+def h_combine(ctx):
+    l, r = (ctx.ex.deref_val(ctx.st, a) for a in ctx.args[:2])
+    if not (z3.is_expr(l) and l.sort() == Hash and z3.is_expr(r) and r.sort() == Hash):
+        raise Inconclusive(f'combine on non-hash values {l!r} {r!r}')
+    ctx.st.log.append(('combine', l, r))
+    return [(None, Hash.node(l, r))]
+
+
+def h_chunks(ctx):
+    from mirsym import models as M
+    v = M.shaped(ctx.ex, ctx.st, ctx.args[0], 'audit path')
+    it = Obj('Chunks', kind='iter'); it.attrs['src'] = v; it.attrs['pos'] = 0; it.attrs['mode'] = 'val'
+    return [(None, it)]
+
+
+def h_complete_parent_contract(ctx):
+    """assume-guarantee: the contract proved by the Kani lemma `complete_parent_total_below_root` for the full 64-bit domain"""
+    ex, st = ctx.ex, ctx.st
+    i, n = ctx.args
+    root = st.world['root_of'](n)
+    pre = z3.And(z3.ULT(i, n), i != root)
+    p = z3.BitVec(f'parent_{len(st.log)}', 64)
+    st.log.append(('complete_parent', i, n))
+
+    def okk(s2):
+        s2.pc += [z3.ULT(p, n), z3.Extract(0, 0, p) == 1, p != i]
+        return p
+    from mirsym.engine import Diverge
+    small = z3.ULT(n, z3.BitVecVal(1 << 63, 64))
+    return [(z3.And(z3.Not(pre), small), Diverge('panic', 'complete_parent called at the root / outside the tree: the walk climbs to usize::MAX and unwraps None')),
+            (z3.And(z3.Not(pre), z3.Not(small)), Diverge('abort', 'complete_parent outside its proved contract for a tree size >= 2^63 (behaviour not modelled)')),
+            (pre, okk)]
+
+
+@obligation('C08', 'C08-W proof walk is total for every tree size, leaf index and path length <= K')
+def c08_walk(run):
+    K = 4 if run.tier == 'quick' else 7
+    run.bound(audit_path_segments=f'0..{K}', tree_size='every NonZeroUsize', leaf_index='every index accepted by try_into_proof',
+              complete_parent='replaced by its Kani-proved contract (assume-guarantee); complete_root, leaf_index_to_tree_index executed from MIR')
+    run.assume('hashes are free constructors (collision-free model): combine(l, r) = node(l, r)')
+    hooks = [(r'^combine$', h_combine), (r'^core::slice::<impl \[u8\]>::chunks$', h_chunks), (r'^complete_parent$', h_complete_parent_contract),
+             (r'^(std::num::)?NonZero::<usize>::get$', lambda ctx: [(None, ctx.args[0])])]
+    ex = merkle_engine(hooks)
+    walk = ex.find(r'audit::<impl at [^>]*>::reconstruct_root_with_leaf_hash$')
+    croot = ex.find(r'^complete_root$')
+    # complete_root as a function of n, obtained by executing its MIR once per n-term (loop-free)
+    def root_of(n):
+        ps = ex.run(ex.start(croot, [n]))
+        vals = [(p.pc, p.result) for p in ps if p.kind == 'return']
+        if any(p.kind not in ('return', 'infeasible') for p in ps):
+            raise Inconclusive('complete_root can diverge: ' + str([(p.kind, p.info) for p in ps if p.kind != 'return']))
+        e = vals[-1][1]
+        for pc, v in vals[:-1]:
+            e = z3.If(z3.And(*pc) if pc else z3.BoolVal(True), v, e)
+        return e
+    for k in range(K + 1):
+        n, li = z3.BitVec('tree_size', 64), z3.BitVec('leaf_index', 64)
+        sibs = [z3.Const(f'sibling{j}', Hash) for j in range(k)]
+        from mirsym import models as M
+        path = M.new_vec('Vec<u8>', sibs)
+        proof = B.struct(ex, 'Proof', audit_path=path, leaf_index=li, tree_size=n)
+        leaf_hash = z3.Const('leaf_hash', Hash)
+        valid = [n != 0, z3.ULE(li, z3.BitVecVal((1 << 63) - 1, 64)), z3.ULT(li * 2, n)]     # what try_into_proof establishes (checked below)
+        st = ex.start(walk, [B.cell(proof), leaf_hash], world={'root_of': root_of})
+        st.pc += valid
+        paths = run.explore(ex, st, defer_abort=True)
+        nret = 0
+        aborted = [p for p in paths if p.kind == 'abort']
+        for i, p in enumerate(paths):
+            if p.kind == 'abort':
+                continue
+            if p.kind == 'return':
+                nret += 1
+                run.reached(f'walk returns k={k}')
+                if k <= 2:
+                    run.sample({'k': k, 'path': i, 'root_term': str(z3.simplify(p.result))[:160]})
+                continue
+            run.prove(f'no panic with {k} segments [path {i}]', p.pc, z3.BoolVal(False), replay=replay_walk(k, n, li), detail=p.info)
+        run.cur.queries.append({'label': f'walk k={k}: {nret} returning paths, {len(paths) - nret} diverging', 'result': 'explored', 's': 0})
+        if aborted and not run.cur.violations:
+            raise Inconclusive('walk reaches unmodelled behaviour: ' + str(aborted[0].info))
+    # try_into_proof establishes `valid`
+    tip = ex.find(r'audit::<impl at [^>]*>::try_into_proof$')
+    for plen in (0, 1, 2):
+        n, li = z3.BitVec('tree_size', 64), z3.BitVec('leaf_index', 64)
+        path = M.new_vec('Vec<u8>', [z3.Const(f's{j}', Hash) for j in range(plen)])
+        path.attrs['bytes_per_item'] = 32
+        up = B.struct(ex, 'UncheckedProof', audit_path=path, leaf_index=li, tree_size=n)
+        hooks2 = ex.hooks
+        for i, p in enumerate(run.explore(ex, ex.start(tip, [up]), allow_havoc=INVALID_PROOF_CTORS)):
+            if p.kind != 'return':
+                run.prove(f'try_into_proof no panic [len {plen}, path {i}]', p.pc, z3.BoolVal(False), replay=replay_tip(n, li, plen), detail=p.info); continue
+            if p.result.discr == 'Ok':
+                run.prove(f'try_into_proof Ok => tree_size != 0 and 2*leaf_index < tree_size without wrap [len {plen}, path {i}]', p.pc,
+                          z3.And(n != 0, z3.ULE(li, z3.BitVecVal((1 << 63) - 1, 64)), z3.ULT(li * 2, n)), replay=replay_tip(n, li, plen))
+    run.require_reached(*run.cur.reach)
+
+
+def replay_walk(k, n_e, li_e):
+    from vlib import replay
+
+    def rp(model, path):
+        n, li = mval(model, n_e), mval(model, li_e)
+        code = f'''
+#[cfg(test)]
+mod verif_replay_walk {{
+    #[test]
+    fn verif_replay_walk() {{
+        let r = std::panic::catch_unwind(|| {{
+            let p = crate::Proof::unchecked().audit_path(vec![7u8; 32 * {k}]).leaf_index({li}usize).tree_size({n}usize).try_into_proof();
+            match p {{ Ok(p) => {{ let _ = p.verify(b"leaf", [1u8; 32]); "verified-without-panic" }}, Err(_) => "rejected" }}
+        }});
+        println!("VERIF: {{{{\\"verdict\\": \\"{{}}\\"}}}}", match r {{ Ok(s) => s, Err(_) => "panic" }});
+    }}
+}}'''
+        r = replay.run_crate_test('astria-merkle', 'crates/astria-merkle/src/lib.rs', code, 'verif_replay_walk')
+        v = r['lines'][-1]['verdict'] if r['lines'] else None
+        return {'mode': 'native-crate-test', 'inputs': {'tree_size': n, 'leaf_index': li, 'segments': k}, 'verdict': v, 'reproduced': (v == 'panic') if v else None,
+                'error': None if v else r['output'][-1200:]}
+    return rp
+
+
+def replay_tip(n_e, li_e, plen):
+    def rp(model, path):
+        return replay_walk(plen, n_e, li_e)(model, path)
+    return rp
